@@ -75,6 +75,18 @@ def run(ck):
                                             ("can1", "PollExecutor-q"), ("env1", "PollExecutor-q"), ("PollExecutor-q", "env1"),
                                             ("env2", "PollExecutor-q"), ("notif0", "PollExecutor-q")],
                               range(2, 60, 5 if quick else 1), range(2, 40, 6 if quick else 1), facts={"cancel_fn": "false"})
+    # the same at the granularity of single bytecodes (a registration landing inside a deregistration's rebuild of the
+    # descriptor list): one future is being cancelled / resolved while another one's delegate completes
+    pq = {"flavour": "manual", "jobs": [{"S": 0, "D": 100, "fail": False, "y": 0, "K": 300, "C": True},
+                                        {"S": 0, "D": 300, "fail": False, "y": 1, "K": None, "C": True}],
+          "cancel_fn": None, "poll_raise": 0, "poll_dur": 0, "notify": [], "interval": 500, "horizon": 2500}
+    swept += _core.phase_tasks("poll", pq, [("can1", "env2")], range(1, 150, 1 if quick else 1), [10000], gran="instr",
+                               facts={"cancel_fn": None})
+    pr = {"flavour": "manual", "jobs": [{"S": 0, "D": 100, "fail": False, "y": 2, "K": None, "C": True},
+                                        {"S": 0, "D": 601, "fail": False, "y": 1, "K": None, "C": True}],
+          "cancel_fn": None, "poll_raise": 0, "poll_dur": 0, "notify": [], "interval": 500, "horizon": 2500}
+    swept += _core.phase_tasks("poll", pr, [("PollExecutor-q", "env2")], range(1, 260, 2 if quick else 1), [10000],
+                               gran="instr", facts={"cancel_fn": None}, prefix=[["env1", 10000]])
     ck.run_and_validate(swept, TRACE, nontrivial=lambda t, r: True)
     ck.assumptions += [
         "'must be shown' is demanded of futures whose delegate completion (incl. callbacks) preceded the previous poll call's return; promptness covers the rest",
